@@ -46,7 +46,9 @@ pub fn concretise(k: usize, r: &Value, seed: u64) -> Conc {
     let bad = r["bad"].as_bool().unwrap_or(false);
     // every third request carries no query (whatever an earlier one carried must not show through)
     let query = if (k as u64 + seed) % 3 == 0 { String::new() } else { format!("?s={seed}&k{k}=v{k}") };
-    let mut head = format!("{} /r/{k}{query} HTTP/1.1\r\nHost: h{k}.example\r\nX-Req: {k}\r\n", if b == 0 { "GET" } else { "POST" });
+    // a request with a payload is a POST, a PUT or -- legal, if unusual -- a GET
+    let method = if b == 0 { "GET" } else { ["GET", "POST", "PUT", "POST"][((k as u64 + seed) % 4) as usize] };
+    let mut head = format!("{method} /r/{k}{query} HTTP/1.1\r\nHost: h{k}.example\r\nX-Req: {k}\r\n");
     // a request the parser refuses after it has accepted some header lines (which must not leak into the next request)
     if bad { head.push_str(&format!("Authorization: Bearer secret-of-{k}\r\nX-Mark: bad{k}\r\nX-Leak: leak{k}\r\nCookie: sid=bad{k}\r\nthis line has no colon\r\n")) }
     if r["many"].as_bool().unwrap_or(false) && !bad { for j in 0..5 { head.push_str(&format!("X-M{j}: v{k}-{j}\r\n")) } }
@@ -58,7 +60,15 @@ pub fn concretise(k: usize, r: &Value, seed: u64) -> Conc {
     head.push_str(&format!("X-Pad: {}\r\n\r\n", "p".repeat(pad)));
     assert_eq!(head.len(), h * CELL);
     let mut body: Vec<u8> = (0..b * CELL).map(|j| ((j as u64 * 13 + k as u64 * 31 + seed) % 250 + 1) as u8).collect();
-    if b > 0 && r["z"].as_bool().unwrap_or(false) { body[0] = 0; body[b * CELL / 2] = 0 }
+    if b > 0 && r["z"].as_bool().unwrap_or(false) {
+        body[0] = 0; body[b * CELL / 2] = 0;
+        // binary-looking content: behind a NUL, an empty line, a bare LF LF, and something that reads like a request of its own
+        let mid = b * CELL / 2;
+        body[5..9].copy_from_slice(b"\r\n\r\n");
+        body[mid + 3..mid + 5].copy_from_slice(b"\n\n");
+        let inner = format!("GET /r/9{k}?inner=1 HTTP/1.1\r\nHost: inner\r\n\r\n");
+        body[16..16 + inner.len()].copy_from_slice(inner.as_bytes());
+    }
     let mut bytes = head.into_bytes(); bytes.extend_from_slice(&body);
     Conc { bytes, body }
 }
@@ -255,12 +265,14 @@ pub fn gen(rng: &mut Rng, idx: usize) -> Value {
     let n = rng.range(2, if c05 { 10 } else { 5 });
     let reqs: Vec<Value> = (0..n).map(|k| json!({"h": rng.range(1, 3), "b": if rng.chance(1, 2) { 0 } else { rng.range(1, 6) }, "close": k + 1 == n && rng.chance(1, 3),
         "z": rng.chance(1, 3), "mark": rng.chance(1, 3), "many": rng.chance(1, 3), "bad": false})).collect();
-    let reqs: Vec<Value> = reqs.into_iter().enumerate().map(|(k, mut r)| { if c05 && k + 1 < n && rng.chance(1, 6) { r["bad"] = json!(true); r["b"] = json!(0); r["close"] = json!(false); r["h"] = json!(rng.range(2, 3)) } r }).collect();
+    let reqs: Vec<Value> = reqs.into_iter().enumerate().map(|(k, mut r)| { if k + 1 < n && rng.chance(1, 6) { r["bad"] = json!(true); r["b"] = json!(0); r["close"] = json!(false); r["h"] = json!(rng.range(2, 3)) } r }).collect();
     let mut ends = vec![]; let mut tot = 0; for r in &reqs { tot += (i(&r["h"]) + i(&r["b"])) as usize; ends.push(tot) }
     let mut cuts: Vec<usize> = if c05 { ends[..ends.len() - 1].to_vec() } else {
         let mut cs: Vec<usize> = (1..tot).filter(|_| rng.chance(1, 3)).collect();
         // keep the classes mixed: half of the c06 scenarios never coalesce two requests
         if rng.chance(1, 2) { for e in &ends[..ends.len() - 1] { if !cs.contains(e) { cs.push(*e) } } }
+        // a segment ends where a refused request ends (what is read together with it may go with it)
+        for (k, r) in reqs.iter().enumerate() { if r["bad"].as_bool().unwrap_or(false) && !cs.contains(&ends[k]) { cs.push(ends[k]) } }
         cs
     };
     cuts.sort(); cuts.dedup();
